@@ -5,6 +5,7 @@
 #   entry = [id, [[field, value] ...], [[role, [person ...]] ...]]      id = identity of the Python object
 #   db    = [[key, entry] ...]                                          in insertion order
 #   fn 1/3: [db, start_entry, name, use_bib_data]     fn 2: [db, start_entry, name]
+#   fn 9:   [db, names, use_bib_data]
 #   fn 4:   [db, citations, min_crossrefs]            fn 5-8: [db, citations, min_crossrefs, fields]
 import itertools, random, signal
 from core import *
@@ -115,6 +116,32 @@ def impl_find_field(a):
     except Exception:
         return [2]
 
+def impl_find_all(a):
+    """Entry._find_field for every entry of the database x every name"""
+    bd, _ = build(a[0])
+    ndb, _ = norm_spec(a[0])
+    objs = {}
+    out = []
+    seen = set()
+    for k, e in ndb:
+        kl = S(k).lower()
+        if kl in seen:
+            continue
+        seen.add(kl)
+        ent = bd.entries[S(k)]
+        row = []
+        for nm in a[1]:
+            try:
+                row.append([0, [norm(ent._find_field(S(nm), bd if a[2] else None))]])
+            except KeyError:
+                row.append([0, []])
+            except _Timeout:
+                raise
+            except Exception:
+                row.append([2])
+        out.append(row)
+    return out
+
 def impl_field_value(a):
     from pybtex.bibtex.interpreter import Interpreter, Field, Crossref, MissingField
     bd, (e,) = build(a[0], [a[1]])
@@ -170,9 +197,10 @@ def impl_bst_run(a, strict=False):
             pass
         def parse_files(self, files):
             return bd
-    src = bst_source(fields)
     def run():
-        script = bst.parse_string(src)
+        script = _BST_CACHE.get(tuple(fields))
+        if script is None:
+            script = _BST_CACHE[tuple(fields)] = list(bst.parse_string(bst_source(fields)))
         out = Interpreter(Given, None).run(script, [S(c) for c in a[1]], ['x'], a[2])
         lines = out.split('\n')
         assert lines[-1] == '' and (len(lines) - 1) % (len(fields) + 1) == 0, lines
@@ -202,7 +230,15 @@ def impl_bst_run(a, strict=False):
     except Exception:
         return [2]
 
+_STYLE_CACHE = {}
 def make_style(fields, minx):
+    """a style object holds no per-run state; building one costs three plugin look-ups, so they are cached"""
+    key = (tuple(fields), minx)
+    if key not in _STYLE_CACHE:
+        _STYLE_CACHE[key] = _make_style(fields, minx)
+    return _STYLE_CACHE[key]
+
+def _make_style(fields, minx):
     from pybtex.style.formatting.unsrt import Style as Unsrt
     from pybtex.style.template import field, optional, join, first_of
     class FieldDump(Unsrt):
@@ -256,6 +292,7 @@ FUNCS = {
     6: ('Python engine: BaseStyle.format_bibliography (errors captured)', guarded(impl_py_run), RUN_SCH),
     7: ('BST engine, strict mode', guarded(lambda a: impl_bst_run(a, True)), RUN_SCH),
     8: ('Python engine, strict mode', guarded(lambda a: impl_py_run(a, True)), RUN_SCH),
+    9: ('Entry._find_field, every entry x every name', guarded(impl_find_all), ('T', DB_SCH, ('L', 'S'), 'B')),
 }
 
 def canon(fn, r):
@@ -347,6 +384,19 @@ def oracle(fn, a, out):
         return None
     ndb, _ = norm_spec(a[0])
     table = _table(ndb)
+    if fn == 9:
+        ents = list(table.values())
+        if len(out) != len(ents):
+            return 'malformed implementation output'
+        for e, row in zip(ents, out):
+            for nm, o in zip(a[1], row):
+                if o == [2]:
+                    return 'lookup of %r from object %d crashed (foreign exception / recursion / hang) instead of terminating' % (S(nm), e[0])
+                if a[2]:
+                    exp = expected(table, e, S(nm)); got = S(o[1][0]) if o[1] else None
+                    if got != exp:
+                        return 'object %d, field %r: expected %r (own field, else person role, else nearest definition along the crossref chain, else missing), got %r' % (e[0], S(nm), exp, got)
+        return None
     if out == [2]:
         return 'crashed with a foreign exception instead of reporting'
     cited = cited_entries(ndb, table, a[1])
@@ -490,9 +540,7 @@ def gen(tier, rng):
     nmax = 3
     for n in range(1, nmax + 1):
         for idx, db in enumerate(small_dbs(n)):
-            for k, e in db:
-                for nm in ('title', 'editor'):
-                    yield ('exhaustive', 1, [db, e, nm, 1])
+            yield ('exhaustive', 9, [db, ['title', 'editor'], 1])
             engines = n <= 2 or (not quick) or idx % 4 == 0
             if engines:
                 yield ('exhaustive_engines', 5, [db, ['*'], 2, ALLF])
@@ -507,16 +555,13 @@ def gen(tier, rng):
                 yield ('exhaustive_glue', 7, [db, cits, 2, ALLF]); yield ('exhaustive_glue', 8, [db, cits, 2, ALLF])
     if not quick:
         for idx, db in enumerate(small_dbs(2, with_year=True)):
-            for k, e in db:
-                for nm in ('title', 'editor', 'year'):
-                    yield ('exhaustive', 1, [db, e, nm, 1])
+            yield ('exhaustive', 9, [db, ['title', 'editor', 'year'], 1])
         # four entries, one field: every graph incl. all cycles and lassos over 4 nodes
         opts = [None] + list(range(4)) + ['zz']
         for xs in itertools.product(opts, repeat=4):
             for ts in itertools.product([0, 1], repeat=4):
                 db = [[KEYS[i], mk(i, title=ts[i], crossref=(KEYS[xs[i]] if isinstance(xs[i], int) else xs[i]))] for i in range(4)]
-                for k, e in db:
-                    yield ('exhaustive4', 1, [db, e, 'title', 1])
+                yield ('exhaustive4', 9, [db, ['title'], 1])
                 if sum(ts) <= 1 and xs[0] is not None:
                     yield ('exhaustive4', 5, [db, ['*'], 2, ['title']]); yield ('exhaustive4', 6, [db, ['*'], 2, ['title']])
     # ---- structured random: larger graphs (chains, cycles, trees, random), key/field case variation,
@@ -540,6 +585,7 @@ def gen(tier, rng):
         minx = rng.choice([2, 2, 1, 1, 0, 3, -1])
         fields = rng.choice([ALLF, ['title'], ['editor', 'title'], ['year', 'note', 'title', 'crossref'], []])
         yield ('random', 4, [db, cits, minx])
+        yield ('random', 9, [db, rng.sample(QNAMES, 3), 0 if rng.random() < 0.05 else 1])
         yield ('random', rng.choice([5, 7]), [db, cits, minx, fields])
         yield ('random', rng.choice([6, 8]), [db, cits, minx, fields])
     # ---- long chains and big cycles (termination; Python recursion stays well below its limit here)
@@ -569,7 +615,10 @@ def describe(fn, a):
     def ent(e):
         return {'object': e[0], 'fields': {S(k): S(v) for k, v in e[1]}, 'persons': {S(r): [S(p) for p in ps] for r, ps in e[2]}}
     d = {'function': FUNCS[fn][0], 'database': [[S(k), ent(e)] for k, e in a[0]]}
-    if fn in (1, 2, 3):
+    if fn == 9:
+        d['fields'] = [S(f) for f in a[1]]; d['bib_data_passed'] = bool(a[2])
+        del d['function']; d = dict(function=FUNCS[fn][0], **d)
+    elif fn in (1, 2, 3):
         d['entry'] = ent(a[1]); d['field'] = S(a[2])
         if fn != 2:
             d['bib_data_passed'] = bool(a[3])
